@@ -97,6 +97,9 @@ pub(crate) enum Token<'a> {
 
     /// Unknown token, not expected by the lexer, e.g. "№"
     Illegal,
+
+    /// End of the input (never produced by the lexer itself, used by the parser as a marker)
+    Eof,
 }
 
 /// Peekable iterator over a char sequence.
@@ -229,7 +232,10 @@ impl<'a> Iterator for Tokenizer<'a> {
                 self.skip_while(|c, esc| c != '"' || esc);
 
                 // skip closing "
-                self.bump()?;
+                // if there is none the input ended inside of the string
+                if self.bump().is_none() {
+                    return Some(Illegal);
+                }
 
                 // this reads the string including escape characters
                 String(self.read_str(start + 1, self.offset() - 1))
